@@ -107,6 +107,41 @@ def run(ck, tier, seed):
         big = os.path.getsize(f) > 400000
         cases += rewrite_cases(f, rng, (3 if big else 6) if q else (8 if big else 14), os.path.basename(f))
         cases += tail_cases(f, os.path.basename(f))
+    # compressed tables themselves: single bytes of the LZ4 payload rewritten (match offsets, lengths, tokens)
+    for f in sorted({os.path.join(vlib.REPO, "tests/fonts/Awami_compressed_test.ttf")} | {x for x in fonts if "compressed" in x or "AwamiNastaliq" in x}):
+        S = sfnt.Sfnt(f)
+        for t in ("Silf", "Glat"):
+            b = S.table(t)
+            if not b or len(b) < 24:
+                continue
+            for k in range(40 if q else 400):
+                pos = 8 + k if k < 16 else rng.randrange(8, len(b))
+                val = rng.choice([0, 1, 15, 16, 240, 255, b[pos] ^ 1, b[pos] ^ 0x80, (b[pos] + 7) & 0xFF])
+                if val != b[pos]:
+                    cases.append({"id": "%s:%s lz4 byte %d=%d" % (os.path.basename(f), t, pos, val), "font": f, "patches": [[t, pos, 1, val]], "opts": [rng.choice([0, 6])]})
+    # ... and well-formed LZ4 streams whose k-th match reaches back beyond the start of the output (by 1, 8, 1000 bytes)
+    import struct
+    basef = os.path.join(vlib.REPO, "tests/fonts/Awami_compressed_test.ttf")
+    S0 = sfnt.Sfnt(basef)
+    tabs0 = {t: S0.table(t) for t in S0.order}
+    for t in ("Silf", "Glat"):
+        plain_t = lz4.decompress_table(tabs0[t])
+        if plain_t is None:
+            continue
+        seqs, tail = lz4.sequences(plain_t)
+        done = 0
+        for k in range(min(len(seqs), 3)):
+            for d in (1, 8, 1000):
+                written = sum(len(x[0]) + x[2] for x in seqs[:k]) + len(seqs[k][0])
+                if written + d > 65535:
+                    continue
+                mut = [list(x) for x in seqs]
+                mut[k][1] = written + d
+                tbl = plain_t[:4] + struct.pack(">I", (1 << 27) | len(plain_t)) + bytes(lz4.serialize(mut, tail))
+                path = os.path.join(tmp, "lz4back-%s-%d-%d.ttf" % (t, k, d))
+                open(path, "wb").write(sfnt.build_sfnt(dict(tabs0, **{t: tbl})))
+                cases.append({"id": "lz4 %s match %d reaches %d bytes before the output" % (t, k, d), "font": path, "patches": [], "opts": [0, 7]})
+                done += 1
     # the decompressed form of compressed fonts, so that fields inside compressed tables are reachable
     for f in [x for x in fonts if "compressed" in x or "AwamiNastaliq" in x]:
         S = sfnt.Sfnt(f)
